@@ -48,6 +48,10 @@ def gen_cases(tier):
             if ver is not None and lvl is not None and lvl not in T.levels_of(ver):
                 continue
             yield ('alt', ver, lvl, 1, 45)
+    for pair in ('hn', 'kb', 'hb'):
+        for ver in (1, 2, 3, None):
+            for lvl in ('L', 'H'):
+                yield ('altpairs', ver, lvl, pair)
     # (e) ECI overhead (byte parts in UTF-8 with eci=True) around boundaries of small versions
     for v in (1, 2, 3, 9, 10):
         for lvl in ('L', 'H'):
@@ -222,6 +226,12 @@ def run_case(case, acc, want='both'):
             alt(ver, lvl, k, acc, want)
     elif kind == 'alt1':
         alt(case[1], case[2], case[3], acc, want)
+    elif kind == 'altp':
+        alt_pair(case[1], case[2], case[3], acc, want, case[4])
+    elif kind == 'altpairs':
+        _, ver, lvl, pair = case
+        for k in range(1, 41):
+            alt_pair(ver, lvl, k, acc, want, pair)
     elif kind == 'eci':
         _, v, lvl = case
         nmax = C.max_count('byte', v, lvl, extra_bits=12)
@@ -261,6 +271,21 @@ def run_case(case, acc, want='both'):
                         if req is not None:
                             kw['version'] = req
                         evaluate(acc, ('one8', n, kw), 'a' * n, [('byte', n, True)], kw, decode=True, exp_bytes=b'a' * n, want=want)
+        for alias in ('latin1', 'ISO-8859-1', 'l1'):
+            for target in ('L', 'H'):
+                for extra in (0, 12):
+                    nmax = C.max_count('byte', v, target, extra_bits=extra)
+                    for n in range(max(1, nmax - 1), nmax + 2):
+                        kw = {'mask': 0, 'eci': True, 'encoding': alias, 'mode': 'byte', 'error': target, 'boost_error': False}
+                        qr, exc = call('a' * n, kw)
+                        if qr is None:
+                            continue
+                        rep = C.read(qr)
+                        written = bool(rep.segments and rep.segments[0].eci is not None)
+                        evaluate(acc, ('alias', n, kw, written), 'a' * n, [('byte', n, written)], kw, decode=True, exp_bytes=b'a' * n, want=want)
+    elif kind == 'alias':
+        _, n, kw, written = case
+        evaluate(acc, case, 'a' * n, [('byte', n, bool(written))], dict(kw), decode=True, exp_bytes=b'a' * n, want=want)
     elif kind == 'merge':
         _, v, lvl = case
         merge_family(v, lvl, acc, want)
@@ -378,8 +403,16 @@ def crosstalk(direction, acc, want):
         evaluate(acc, ('one', mode, n, kw), content, parts, kw, decode=False, want=want)
 
 
-def alt(ver, lvl, k, acc, want):
-    """k alternating one-character numeric / alphanumeric parts, requested version at a count-indicator range edge"""
+ALT_PAIRS = {'na': (('numeric', '1', 1), ('alphanumeric', 'A', 2)), 'hn': (('hanzi', ('书', 13), 13), ('numeric', '7', 1)),
+             'kb': (('kanji', ('点', 8), 8), ('byte', 'a', 4)), 'hb': (('hanzi', ('读', 13), 13), ('byte', ('\xe9', 4), 4))}
+
+
+def alt(ver, lvl, k, acc, want, pair='na'):
+    """k alternating one-character parts of two modes (numeric/alphanumeric by default), requested version at a count-indicator
+    range edge; other pairs put several Hanzi / Kanji segments into one symbol"""
+    (m1, c1, _), (m2, c2, _) = ALT_PAIRS[pair]
+    if pair != 'na':
+        return alt_pair(ver, lvl, k, acc, want, pair)
     content = ['1' if i % 2 == 0 else 'A' for i in range(k)]
     parts = [('numeric' if i % 2 == 0 else 'alphanumeric', 1, False) for i in range(k)]
     for boost in (True, False):
@@ -393,3 +426,29 @@ def alt(ver, lvl, k, acc, want):
             kw['boost_error'] = False
         evaluate(acc, ('alt1', ver, lvl, k), content, parts, kw, single=(k == 1), decode=True,
                  exp_bytes=''.join(content).encode(), want=want)
+
+
+def alt_pair(ver, lvl, k, acc, want, pair):
+    (m1, c1, _), (m2, c2, _) = ALT_PAIRS[pair]
+    content, parts, exp = [], [], b''
+    for i in range(k):
+        m, c = (m1, c1) if i % 2 == 0 else (m2, c2)
+        if isinstance(c, tuple):                      # (text, mode constant): per-part mode in the internal tuple format
+            content.append((c[0] * 2, c[1]))
+            text = c[0] * 2
+        else:
+            content.append(c * 2)
+            text = c * 2
+        enc = {'hanzi': 'gb2312', 'kanji': 'shift_jis'}.get(m, 'latin-1')
+        parts.append((m, 2, False))
+        exp += text.encode(enc)
+    if ver is not None and any(not T.mode_supported(m, ver) for m, _, _ in parts):
+        return
+    kw = {'mask': 0}
+    if ver is not None:
+        kw['version'] = ver
+    if lvl is not None:
+        kw['error'] = lvl
+    if ver is None:
+        kw['micro'] = False
+    evaluate(acc, ('altp', ver, lvl, k, pair), content, parts, kw, single=False, decode=True, exp_bytes=exp, want=want)
